@@ -172,7 +172,7 @@ func factsC16(r *Repo) []Fact {
 
 	ext, extFile := cp.Func("", "extractOption")
 	if ext == nil || ext.Body == nil {
-		for _, n := range []string{"typeCmpIdentity", "typeCmpImplements", "passSubPathIsError", "nestedCopies", "designateCopies"} {
+		for _, n := range []string{"typeCmpIdentity", "typeCmpImplements", "passSubPathIsError", "nestedCopies", "designateCopies", "valsGrowFromMapSlot"} {
 			out = append(out, unknownFact(n, "Bool", "false", "compose/utils.go", "func extractOption not found"))
 		}
 		out = append(out, unknownFact("strip", "Nat", "0", "compose/utils.go", "func extractOption not found"))
@@ -422,6 +422,92 @@ func factsC16(r *Repo) []Fact {
 	} else {
 		out = append(out, boolFact("nestedCopies", nOptDefs == nOptCopies && !writesInput && dcOK,
 			where+": every nOpt := opt.deepCopy(), no assignment through a parameter/range variable; "+dcWhere+" returns freshly made slices and copies each NodePath"))
+	}
+
+	// ---- valsGrowFromMapSlot: how the lists of optMap come about.  Every assignment whose target
+	// is an element of optMap (anywhere in extractOption, function literals included) must be
+	// `optMap[K] = append(optMap[K], …)` – the list grows from the slot of the call's own fresh map,
+	// so its first append allocates an array that belongs to the map – or
+	// `optMap[K] = append(L, …)` with L a local bound by reading an element of optMap
+	// (`L := optMap[K]`, `L, ok := optMap[K]`).  false: some element of optMap is assigned a slice
+	// that comes from elsewhere (`optMap[K] = opt.options`, `optMap[K] = append(opt.options, …)`,
+	// a parameter, …): the node's list then lives in a foreign array.  unknown: optMap is handed
+	// to another function, or no such assignment is found.
+	{
+		fromMap := map[string]bool{} // locals bound by reading an element of optMap
+		ast.Inspect(ext.Body, func(n ast.Node) bool {
+			as, ok := n.(*ast.AssignStmt)
+			if !ok || as.Tok != token.DEFINE || len(as.Rhs) != 1 || len(as.Lhs) == 0 {
+				return true
+			}
+			if ix, ok := as.Rhs[0].(*ast.IndexExpr); ok && exprString(ix.X) == "optMap" {
+				if id, ok := as.Lhs[0].(*ast.Ident); ok {
+					fromMap[id.Name] = true
+				}
+			}
+			return true
+		})
+		own, foreign, passedOut := 0, 0, false
+		foreignWhat := ""
+		ast.Inspect(ext.Body, func(n ast.Node) bool {
+			switch v := n.(type) {
+			case *ast.CallExpr:
+				if exprString(v.Fun) != "append" && exprString(v.Fun) != "len" {
+					for _, a := range v.Args {
+						if exprString(a) == "optMap" {
+							passedOut = true
+						}
+					}
+				}
+			case *ast.AssignStmt:
+				for i, l := range v.Lhs {
+					ix, ok := l.(*ast.IndexExpr)
+					if !ok || exprString(ix.X) != "optMap" {
+						continue
+					}
+					if v.Tok != token.ASSIGN || len(v.Rhs) != len(v.Lhs) {
+						foreign++
+						foreignWhat = exprString(l) + " " + v.Tok.String() + " …"
+						continue
+					}
+					rhs := v.Rhs[i]
+					good := false
+					switch r := rhs.(type) {
+					case *ast.CallExpr:
+						switch exprString(r.Fun) {
+						case "append":
+							if len(r.Args) >= 1 {
+								a0 := exprString(r.Args[0])
+								if id, isID := r.Args[0].(*ast.Ident); a0 == exprString(l) || (isID && fromMap[id.Name]) {
+									good = true
+								}
+							}
+						case "make":
+							good = true
+						}
+					case *ast.CompositeLit:
+						good = true
+					}
+					if good {
+						own++
+					} else {
+						foreign++
+						foreignWhat = exprString(l) + " = " + exprString(rhs)
+					}
+				}
+			}
+			return true
+		})
+		switch {
+		case passedOut:
+			out = append(out, unknownFact("valsGrowFromMapSlot", "Bool", "false", where, "optMap is handed to another function"))
+		case foreign > 0:
+			out = append(out, boolFact("valsGrowFromMapSlot", false, where+": an element of optMap is assigned a slice that does not grow from the map's own slot: `"+foreignWhat+"`"))
+		case own > 0:
+			out = append(out, boolFact("valsGrowFromMapSlot", true, where+": every assignment to an element of optMap is optMap[k] = append(optMap[k], …)"))
+		default:
+			out = append(out, unknownFact("valsGrowFromMapSlot", "Bool", "false", where, "no assignment to an element of optMap found"))
+		}
 	}
 
 	// ---- designateCopies: Option.DesignateNodeWithPath must not append to the receiver's
